@@ -147,3 +147,22 @@ def run(chk):
         "operations and parameter values are those of the grid in harness/src/bin/inline.rs op_grid (every struct field varied, 2-3 values, 2 argument types)",
         "large dependency closures are explored by the pass model in one fixed order, small ones in every order",
     ]
+
+
+def replay(path):
+    """Re-executes one recorded violation against /repo (no TLC): prints what run_instantiation_pass does now."""
+    v = json.load(open(path))
+    case = v["replay"].get("case")
+    if not case:
+        print("model violation, re-run: bin/check C08 quick")
+        return 2
+    work = os.path.join(lib.WORK, "C08")
+    os.makedirs(work, exist_ok=True)
+    cp, op = os.path.join(work, "replay_case.ndjson"), os.path.join(work, "replay_out.ndjson")
+    lib.write_ndjson(cp, [case])
+    lib.harness(["c08-run", cp, op], binary="inline")
+    r = lib.read_ndjson(op)[0]
+    same = r["inst_res"] == r["ref_res"]
+    print(json.dumps({"operations": v["replay"].get("operations"), "pass_ok": r["pass_ok"], "err": r["err"],
+                      "custom_after": r["custom_after"], "values_equal": same}))
+    return 0 if (r["pass_ok"] and r["custom_after"] == 0 and same) else 1
